@@ -414,7 +414,7 @@ def run_write(shape, cid, run, keep=None, release=False):
             # a caller may pass fixed-width values with some of their padding already in place: the same value, and the same
             # key for the checks, as without ("1 " and "1" are both written, and read back, as "1  ")
             cells = [cell + " " if cell and len(cell) < shape.width else cell for cell in cells]
-        if shape.fmt == "fixed" and shape.recording and row["w"] == "ok":
+        if shape.fmt == "fixed" and shape.recording and row["w"] == "ok" and number > shape.header:   # (a header row is not looked at by anybody: it has to fit)
             # a writer can be handed a value that is too long only because of blanks: it violates the declared length all the
             # same (cell class "grd": no value hook, nothing written), although its text without the blanks would fit
             cells = [("%d.%d" % (row["v"][index], number)).ljust(shape.width + 2) if cls == "grd" and index % 2 == 0 and index < len(row["c"])
